@@ -155,6 +155,15 @@ def run(ctx):
             p2 = rng.choice([8, 8, 40, -560])
             jobs[-1]["pow2"] = p2
             jobs[-1]["dtype"] = rng.choice({8: [None, "int", "int32", "int16"], 40: [None, "int"], -560: [None]}[p2])
+    # mid-size null-model inputs with few small integer weights (seed round 7): the weight placement keeps
+    # a residual strength per node; with exactly representable weights of several magnitudes it reaches
+    # EXACTLY 0 at both end nodes of an open position on 10..40 % of 12..24-node inputs (3 % at 6 nodes)
+    for t in range(40 if ctx.quick else 400):
+        fn = ["null_model_und_sign", "null_model_dir_sign"][t % 2]
+        A = signed_input(rng, rng.randint(12, 24), und=(t % 2 == 0), dens=rng.choice([0.3, 0.5, 0.8]))
+        jobs.append(dict(fn=fn, W=A.tolist(), bin_swaps=rng.choice([0, 1, 2, 5]),
+                         wei_freq=rng.choice([0.1, 0.25, 0.5, 1, 1]), seed=rng.randrange(2 ** 31), src="random-mid",
+                         dtype=rng.choice([None, None, "int"]), layout=None))
     recs = pool.run_jobs(__name__, jobs, limit=15.0, reuse=True, abort=True)
     v1 = ctx.validate("Trace_Rewire.tla", "Trace_Rewire.cfg", recs[:nr], chunk=1500)
     v2 = ctx.validate("Trace_NullSign.tla", "Trace_NullSign.cfg", recs[nr:])
